@@ -75,6 +75,83 @@ func isBad(v any) bool {
 
 // ---- buses -------------------------------------------------------------------------------------------------
 
+// U cannot be serialised.
+type U struct {
+	Ch chan int `json:"ch"`
+}
+
+var busFaults = []string{"none", "value cannot be marshaled", "topic generator fails", "publisher fails", "OnSend/OnPublish hook fails"}
+
+// A bus either publishes the message once and reports success, or reports the error: it never reports success
+// without having published, and never publishes what it reports as failed to prepare.
+func busFaultScenario() *explore.Scenario {
+	return &explore.Scenario{Name: "bus/faults", C: -1, DataOnly: true, Body: func() {
+		kind := vs.Choose(2, 0, "bus kind")
+		fault := busFaults[vs.Choose(len(busFaults), 0, "fault")]
+		m := jsonM(1)
+		pub := hx.NewScriptPub("bus")
+		if fault == "publisher fails" {
+			pub.Outcome = func(int, string, []*message.Message) hx.PubOutcome { return hx.PubErr }
+		}
+		var v any = &B{Y: "x"}
+		if fault == "value cannot be marshaled" {
+			v = &U{Ch: make(chan int)}
+		}
+		topicErr := func() error {
+			if fault == "topic generator fails" {
+				return stderrors.New("no topic")
+			}
+			return nil
+		}
+		hookErr := func() error {
+			if fault == "OnSend/OnPublish hook fails" {
+				return stderrors.New("hook says no")
+			}
+			return nil
+		}
+		var err error
+		if kind == 0 {
+			bus, e := cqrs.NewCommandBusWithConfig(pub, cqrs.CommandBusConfig{
+				GeneratePublishTopic: func(p cqrs.CommandBusGeneratePublishTopicParams) (string, error) { return "topic", topicErr() },
+				OnSend:               func(cqrs.CommandBusOnSendParams) error { return hookErr() },
+				Marshaler:            m,
+			})
+			if e != nil {
+				vs.Fail("setup", "%v", e)
+				return
+			}
+			err = bus.Send(context.Background(), v)
+		} else {
+			bus, e := cqrs.NewEventBusWithConfig(pub, cqrs.EventBusConfig{
+				GeneratePublishTopic: func(p cqrs.GenerateEventPublishTopicParams) (string, error) { return "topic", topicErr() },
+				OnPublish:            func(cqrs.OnEventSendParams) error { return hookErr() },
+				Marshaler:            m,
+			})
+			if e != nil {
+				vs.Fail("setup", "%v", e)
+				return
+			}
+			err = bus.Publish(context.Background(), v)
+		}
+		cfg := fmt.Sprintf("kind=%d fault=%q", kind, fault)
+		accepted := 0
+		for _, c := range pub.Snapshot() {
+			if c.Outcome == hx.PubOK {
+				accepted += len(c.Msgs)
+			}
+		}
+		switch {
+		case fault == "none" && (err != nil || accepted != 1):
+			vs.Fail("published-once", "%s: returned %v, %d messages accepted by the publisher", cfg, err, accepted)
+		case fault != "none" && err == nil:
+			vs.Fail("published-once", "%s: the bus reported success although the message was not published (%d accepted)", cfg, accepted)
+		case fault != "none" && accepted != 0:
+			vs.Fail("published-once", "%s: the bus reported %v but the publisher accepted %d messages", cfg, err, accepted)
+		}
+		vs.Note("%s err=%v accepted=%d", cfg, err != nil, accepted)
+	}}
+}
+
 func busScenario() *explore.Scenario {
 	return &explore.Scenario{Name: "bus", C: -1, DataOnly: true, Body: func() {
 		gen := vs.Choose(len(generators), 0, "name generator")
@@ -532,6 +609,7 @@ func init() {
 		reg.AddW("C15", mk(reg.Quick).Name, tier, w, mk)
 	}
 	add(reg.Quick, 1, func(t reg.Tier) *explore.Scenario { return busScenario() })
+	add(reg.Quick, 1, func(t reg.Tier) *explore.Scenario { return busFaultScenario() })
 	add(reg.Quick, 1, func(t reg.Tier) *explore.Scenario { return protoScenario() })
 	for _, k := range []string{"command", "event", "group"} {
 		k := k
